@@ -7,6 +7,8 @@ import (
 	"sync"
 	"time"
 
+	"golang.org/x/exp/slices"
+
 	"github.com/keep-network/keep-core/pkg/net"
 	"github.com/keep-network/keep-core/pkg/protocol/group"
 	"github.com/keep-network/keep-core/pkg/tecdsa"
@@ -113,6 +115,7 @@ func (sdc *signingDoneCheck) listen(
 					message,
 					attemptNumber,
 					attemptTimeoutBlock,
+					attemptMembersIndexes,
 				) {
 					continue
 				}
@@ -205,10 +208,16 @@ func (sdc *signingDoneCheck) isValidDoneMessage(
 	message *big.Int,
 	attemptNumber uint64,
 	attemptTimeoutBlock uint64,
+	attemptMembersIndexes []group.MemberIndex,
 ) bool {
 	_, signerDone := sdc.doneSigners[doneMessage.senderID]
 	if signerDone {
 		// only one done message allowed
+		return false
+	}
+
+	if !slices.Contains(attemptMembersIndexes, doneMessage.senderID) {
+		// only members included in the given attempt can confirm it
 		return false
 	}
 
